@@ -87,8 +87,13 @@ IntStep(s, e, c) ==
 Step(s, e, c) == IF s.dead \/ s.free THEN s
                  ELSE IF c.kind \in {"LR", "LO"} THEN LineStep(s, e, c)
                  ELSE IF c.kind = "NS" THEN NetStep(s, e, c) ELSE IntStep(s, e, c)
+\* left fold of Step over str[i..j]; split in halves above 32 elements so that the evaluation depth stays logarithmic
 RECURSIVE Fold(_, _, _, _, _)
-Fold(s, str, i, j, c) == IF i > j THEN s ELSE Fold(Step(s, str[i], c), str, i + 1, j, c)
+Fold(s, str, i, j, c) ==
+    IF i > j THEN s
+    ELSE IF s.dead THEN s                 \* absorbing; the test also forces s (TLC passes arguments lazily: no chain of pending Steps)
+    ELSE IF j - i < 32 THEN Fold(Step(s, str[i], c), str, i + 1, j, c)
+    ELSE LET mid == (i + j) \div 2 IN Fold(Fold(s, str, i, mid, c), str, mid + 1, j, c)
 
 \* events the receiver must have produced for the consumed prefix (an unfinished raw segment counts)
 RefEvents(s) == IF s.mode = "raw" /\ s.cur # <<>> THEN Append(s.must, <<"raw", s.cur>>) ELSE s.must
